@@ -210,6 +210,35 @@ def _rr_message(m, a):
     out = [("to_text", lambda: m.to_text(origin=origin))]
     # a message carrying a TSIG that was not validated cannot be re-signed; render the rest
     out.append(("to_wire", lambda: _msg_to_wire(m, origin)))
+    if a.get("deep"):
+        out.extend(_rr_message_deep(m, origin))
+    return out
+
+
+def _rr_message_deep(m, origin):
+    """Field-extreme cases: additionally the message as parsed (TSIG record kept: nothing is
+    signed, the record is only written), and every record of it on its own."""
+    out = []
+    if m.tsig is not None and m.keyring is None:
+        out.append(("to_wire+tsig", lambda: m.to_wire(origin=origin, max_size=65535)))
+    rds = []
+    for sec in m.sections:
+        for rrs in sec:
+            rds.extend(rrs)
+    for special in (m.opt, m.tsig):
+        if special is not None:
+            rds.extend(special)
+
+    def each(fn):
+        def run():
+            for rd in rds:
+                fn(rd)
+        return run
+
+    out.append(("rdata.to_text", each(lambda rd: rd.to_text(origin=origin, relativize=True))))
+    out.append(("rdata.to_text", each(lambda rd: rd.to_text())))
+    out.append(("rdata.to_wire", each(lambda rd: rd.to_wire(origin=origin))))
+    out.append(("rdata.to_digestable", each(lambda rd: rd.to_digestable(origin=origin))))
     return out
 
 
@@ -241,10 +270,17 @@ def _call_rdata_from_wire(a):
 
 def _rr_rdata(rd, a):
     origin = _name_or_none(a.get("origin"))
-    return [
+    out = [
         ("to_text", lambda: rd.to_text(origin=origin, relativize=bool(a.get("relativize", True)))),
         ("to_wire", lambda: rd.to_wire(origin=origin)),
     ]
+    if a.get("deep"):
+        # field-extreme cases: every rendering the record offers
+        out.append(("to_digestable", lambda: rd.to_digestable(origin=origin)))
+        if origin is not None:
+            out.append(("to_text", lambda: rd.to_text()))
+            out.append(("to_text", lambda: rd.to_text(origin=origin, relativize=False)))
+    return out
 
 
 def _call_option_from_wire(a):
